@@ -68,8 +68,17 @@ QGroupSets == {<<"g">>, <<"z">>, <<"z", "g">>}
 ManyKeys == {<<1, 2, 3, 4, 5, 6, 7, 8, 9, 9, 10, 3, 9>>, <<1, 2, 3, 4, 5, 6, 7, 8, 9, 10, 11, 10, 9, 1>>, <<9, 8, 7, 6, 5, 4, 3, 2, 1, 0, 1, 0>>}
 ManyTable(ks) == [i \in 1..Len(ks) |-> R(ks[i], X, Null, i, IF i % 3 = 0 THEN Null ELSE NumV(i))]
 
+\* two string grouping columns whose values, written one after the other, read the same for different rows:
+\* ("a b", "c") / ("a", "b c"), ("1", "12") / ("11", "2")
+Sp(c) == StrV(c)
+SpRows == << R(0, Sp(<<97, 32, 98>>), Sp(<<99>>), 1, NumV(1)), R(0, Sp(<<97>>), Sp(<<98, 32, 99>>), 2, NumV(1)),
+             R(0, Sp(<<97, 32, 98>>), Sp(<<99>>), 3, NumV(1)), R(0, Sp(<<49>>), Sp(<<49, 50>>), 4, NumV(1)),
+             R(0, Sp(<<49, 49>>), Sp(<<50>>), 5, NumV(1)), R(0, Sp(<<97>>), Sp(<<98, 32, 99>>), 6, NumV(1)) >>
 Init ==
-    /\ \/ \E ks \in ManyKeys : \E sl \in Lists(<<"g">>) : \E wh \in {<<None, None>>, <<CmpE(">", Col("a"), LN(1)), None>>} :
+    /\ \/ \E gs \in {<<"h", "z">>, <<"z", "h">>, <<"g", "h", "z">>} : \E sl \in {ColItems(gs) \o <<AI("count", "", "c"), AI("sum", "a", "s")>>, <<Star>>} : \E n \in {3, 6} :
+            cs = [fam |-> "group", doc |-> Doc1("t", SubSeq(SpRows, 1, n)),
+                  q |-> [BaseQ EXCEPT !.sel = sl, !.group = gs]]
+       \/ \E ks \in ManyKeys : \E sl \in Lists(<<"g">>) : \E wh \in {<<None, None>>, <<CmpE(">", Col("a"), LN(1)), None>>} :
             cs = [fam |-> "group", doc |-> Doc1("t", ManyTable(ks)),
                   q |-> [BaseQ EXCEPT !.sel = sl, !.group = <<"g">>, !.where = wh[1], !.having = wh[2]]]
        \/ \E tbl \in SeqsUpTo(Rows, MaxRows) : \E gs \in GroupSets : \E sl \in Lists(gs) : \E wh \in WH :
